@@ -350,6 +350,20 @@ def _plugin_env():
     return _PLUGIN_ENV
 
 
+def fresh_plugin_module():
+    """Re-import the whole plugin package so that the next Plugin() is built from brand-new class objects: whatever an earlier
+    plugin instance left behind at class or module level (a memo dict in a class body, a class attribute assigned through the class
+    name, a module-level cache) is not there - as in a freshly started server.  Objects created before keep their old classes."""
+    import importlib
+    import sys as _sys
+    env = _plugin_env()
+    names = sorted(n for n in _sys.modules if n == "octoprint_excluderegion" or n.startswith("octoprint_excluderegion."))
+    for n in names:
+        del _sys.modules[n]                 # a plain re-import resolves the package's internal imports consistently, each once
+    env["module"] = importlib.import_module("octoprint_excluderegion")
+    return env["module"]
+
+
 class StubUser(object):
     def __init__(self, anon=False):
         self.anon = anon
